@@ -70,6 +70,12 @@ HAND_DOCS = {
     "holographic-plain-escape": '===D===\nK::["a\\nb"∧REQ]\n===END===\n',
     "holographic-unescaped-example|quote": '===D===\nK::["a\\"b"∧REQ]\n===END===\n',
     "nested-meta-comment-only": "===D===\nB:\n  META:\n    // only\n===END===\n",
+    "meta-empty-nested-block|comment-then-sibling": "===D===\nMETA:\n  TYPE::X\n  SUB:\n    // only\n  AFTER::1\n===END===\n",
+    "meta-empty-nested-block|sibling": "===D===\nMETA:\n  TYPE::X\n  SUB:\n  AFTER::1\n===END===\n",
+    "meta-empty-nested-block|last": "===D===\nMETA:\n  TYPE::X\n  SUB:\nK::1\n===END===\n",
+    "nested-inline-map|in-map": "===D===\nK::[a::1,b::[c::2]]\n===END===\n",
+    "nested-inline-map|only": "===D===\nK::[a::[c::2]]\n===END===\n",
+    "nested-inline-map|direct": "===D===\nK::[a::[b::1,c::2],d::3]\n===END===\n",
     "nameless-numbered-section|annotation": "===D===\n§3::[note]\n  K::1\n===END===\n",
 }
 
@@ -105,6 +111,59 @@ def ob_hand(ctx: Ctx) -> Outcome:
         if failed:
             wits.append(Witness(what=text[:700], input={"case": name}, key=f"hand|{name}", replay={"runner": "props.rawchars_b:replay_hand", "args": {"name": name}}, confirmed=True))
     extra = dict(bound=f"{len(HAND_DOCS)} hand-found documents outside the document model (nameless numbered / named sections, holographic patterns with escapes, nested META with only a comment): emit∘parse then strict re-read and byte comparison", evaluations=len(HAND_DOCS) * 2, distinct_nontrivial=len(HAND_DOCS), rule="a case is one document through both readers")
+    if wits:
+        return Outcome.refuted("real reader + emitter", wits, **extra)
+    return Outcome.ok("real reader + emitter", **extra)
+
+
+# ---- C02.B3: comments are content (hand-made placements the document model cannot express: inside META) -----------------------
+COMMENT_DOCS = {
+    "meta|leading": "===D===\nMETA:\n  // lead\n  TYPE::X\n===END===\n",
+    "meta|trailing": "===D===\nMETA:\n  TYPE::X // trail\n===END===\n",
+    "meta|orphan-last": "===D===\nMETA:\n  TYPE::X\n  // orphan\n===END===\n",
+    "meta|nested": "===D===\nMETA:\n  TYPE::X\n  SUB:\n    // inner\n    A::1 // t\n===END===\n",
+    "body|leading": "===D===\n// lead\nK::1\n===END===\n",
+    "body|trailing": "===D===\nK::1 // trail\n===END===\n",
+    "block|inner": "===D===\nB:\n  // inner\n  K::1 // t\n===END===\n",
+    "section|inner": "===D===\n§1::S\n  // inner\n  K::1\n===END===\n",
+    "list|trailing": "===D===\nK::[a,b] // t\n===END===\n",
+}
+
+
+def _comment_one(name: str):
+    import re
+
+    from octave_mcp.core.emitter import emit
+    from octave_mcp.core.parser import parse
+
+    t = COMMENT_DOCS[name]
+    try:
+        e1 = emit(parse(t))
+    except Exception:  # noqa: BLE001
+        return None, "refused"
+    want = sorted(re.findall(r"// ?([^\n]*)", t))
+    got = sorted(re.findall(r"// ?([^\n]*)", e1))
+    if want != got:
+        return True, f"{name}: comments {want} of {t!r} come back as {got} in {e1!r}"
+    return False, "kept"
+
+
+def replay_comment(name: str):
+    failed, text = _comment_one(name)
+    return bool(failed), text
+
+
+def ob_comments(ctx: Ctx) -> Outcome:
+    wits = []
+    ran = 0
+    for name in COMMENT_DOCS:
+        failed, text = _comment_one(name)
+        if failed is None:
+            continue
+        ran += 1
+        if failed:
+            wits.append(Witness(what=text[:600], input={"case": name}, key=f"comment|{name}", replay={"runner": "props.rawchars_b:replay_comment", "args": {"name": name}}, confirmed=True))
+    extra = dict(bound=f"{len(COMMENT_DOCS)} comment placements (META: leading / trailing / orphan / nested block; body, block, section, list): the comment texts of the source are the comment texts of the canonical output", evaluations=len(COMMENT_DOCS), distinct_nontrivial=ran, rule="a case is one document")
     if wits:
         return Outcome.refuted("real reader + emitter", wits, **extra)
     return Outcome.ok("real reader + emitter", **extra)
